@@ -168,7 +168,7 @@ impl Prop for C14Prop {
         }
     }
     fn rule(&self) -> &'static str {
-        "arbitrary stream of 1-6 segments (frames intact / with link faults, noise, junk, cut-off and Byzantine frames; zero tails, withheld zeros and half-read escapes occur just before boundaries by construction of the fault placement) x reset()/finalize() injected at arbitrary positions x buffer {Vec, ArrayBuf<N> incl. too small ones} x optional from_buf(dirty). At every boundary event a fresh Decoder::new() twin is started and compared step by step; additionally decode(s1++s2) == decode(s1)++decode(s2) at a boundary split. Non-trivial = at least two boundary events of which one is followed by more bytes; distinct = scenario fingerprint"
+        "arbitrary stream of 1-6 segments (frames intact / with link faults, noise, junk, cut-off and Byzantine frames; zero tails, withheld zeros and half-read escapes occur just before boundaries by construction of the fault placement) x reset()/finalize() injected at arbitrary positions x buffer {Vec, ArrayBuf<N> incl. too small ones} x optional from_buf(dirty). At every boundary event a fresh Decoder::new() twin is started and compared step by step; additionally decode(s1++s2) == decode(s1)++decode(s2) at a boundary split. A quarter of the runs is the reader form (sub-configuration reader-twin): SmlReader over io::Read / embedded-hal / iterator / slice with source faults (would-block, interrupted, hard error, transient end of input); at each of the first three boundaries inside the reader (delivered, invalid message, invalid escape, out of memory, source error, transient end of input) a new reader over the remaining bytes and the remaining source faults must report exactly the same. Non-trivial = at least two boundary events of which one is followed by more bytes; distinct = scenario fingerprint"
     }
     fn assumptions(&self) -> Vec<&'static str> {
         vec!["metamorphic: a defect that affects a continued decoder and a fresh one alike is invisible here (C02 / C08 / C17 carry the independent oracles)"]
